@@ -109,7 +109,7 @@ def at_scale_case(ctx, g, rng):
 
 
 def run_case(ctx, g, rng):
-    if g % 200 == 200 - 1:
+    if g % 199 == 199 - 1:
         return at_scale_case(ctx, g, rng)
     import curies
 
